@@ -796,6 +796,14 @@ class SturdyRef(Copyable, RemoteCopy):
             self.url = six.ensure_str(self.url)
             self.tubID, self.locationHints, self.name = decode_furl(url)
 
+    def setCopyableState(self, state):
+        # a received SturdyRef is made of the four attributes every release
+        # sends; anything else in the peer-supplied state (it could shadow a
+        # method) is ignored
+        for k in ("url", "tubID", "locationHints", "name"):
+            if k in state:
+                setattr(self, k, state[k])
+
     def getTubRef(self):
         return TubRef(self.tubID, self.locationHints)
 
